@@ -33,6 +33,8 @@ def gen(rng, tier):
         refl_lo = mode in ("reflect_lo", "reflect_both") or (mode == "generic" and rng.rand() < 0.3)
         refl_hi = mode in ("reflect_hi", "reflect_both") or (mode == "generic" and rng.rand() < 0.3)
         tsf = 1 if k % 3 != 2 else rng.choice([2, 3])
+        if tsf * dt / tau > 0.06:
+            tau = 200.0        # keep the slow step well inside the integrator's stability range (omega h << 2): an unstable trajectory only tests the tolerances
         kext = KB * T / (tol * tol)
         mext = (KB * T * tau * tau) / (4.0 * PI * PI * tol * tol)
         gam = g * 1.0e-3
@@ -135,13 +137,13 @@ def oracle(case, out):
     for i in range(1, len(rows)):
         b = m["history"][i]["boundary"]
         if b is None:
-            if abs(rows[i]["xr"] - rows[i - 1]["xnext"]) > 1e-9 or abs(rows[i]["vr"] - rows[i - 1]["vnext"]) > 1e-9:
+            if abs(rows[i]["xr"] - rows[i - 1]["xnext"]) > 1e-9 * max(1.0, abs(rows[i]["xr"])) or abs(rows[i]["vr"] - rows[i - 1]["vnext"]) > 1e-9 * max(1.0, abs(rows[i]["vr"])):
                 viol.append("step %d: reported value/velocity (%r, %r) are not those left by the previous integration (%r, %r)" % (
                     i, rows[i]["xr"], rows[i]["vr"], rows[i - 1]["xnext"], rows[i - 1]["vnext"]))
                 return viol
         else:
             # a repeated step must not advance the coordinate twice: it restarts from what was reported at the repeated step
-            if abs(rows[i]["xr"] - rows[i - 1]["xr"]) > 1e-9 * max(1.0, abs(rows[i]["xr"])) or abs(rows[i]["vr"] - rows[i - 1]["vr"]) > 1e-9:
+            if abs(rows[i]["xr"] - rows[i - 1]["xr"]) > 1e-9 * max(1.0, abs(rows[i]["xr"])) or abs(rows[i]["vr"] - rows[i - 1]["vr"]) > 1e-9 * max(1.0, abs(rows[i]["vr"])):
                 viol.append("repeated step %d (%s): the extended coordinate restarted from (%r, %r) instead of the state reported at that step (%r, %r)" % (
                     i, b, rows[i]["xr"], rows[i]["vr"], rows[i - 1]["xr"], rows[i - 1]["vr"]))
                 return viol
